@@ -4,3 +4,4 @@ import Proofs.WalkerProofs
 import Proofs.LoadDag
 import Proofs.LedgerDag
 import Proofs.AwaitProofs
+import Proofs.MsgpackProofs
